@@ -3,6 +3,7 @@ mod c03;
 mod c04;
 mod c05;
 mod c06;
+mod c08b;
 mod common;
 mod uper;
 
@@ -20,6 +21,7 @@ fn main() {
         "C04" => c04::run(ctx),
         "C05" => c05::run(ctx),
         "C06" => c06::run(ctx),
+        "C08" => c08b::run(ctx),
         "C16" => uper::run_c16b(ctx),
         other => {
             eprintln!("vrt does not serve {other}");
